@@ -1,7 +1,8 @@
 SPECIFICATION Spec
 CONSTANTS
-  MaxNodes = 5
+  MaxNodes = 2
   MaxAttrs = 1
+  Skels = {"A"}
 INVARIANT CodeNeverStricter
 INVARIANT DiffOnlyUnderAlias
 INVARIANT BogusInvalid
